@@ -77,6 +77,8 @@ def run(prog, chk):
                         for next_end in (0, 1):
                             val = {
                                 "(%s == &this->endItem)" % P: at_end, "(&this->endItem == %s)" % P: at_end,
+                                "(%s != &this->endItem)" % P: 1 - at_end, "(&this->endItem != %s)" % P: 1 - at_end,
+                                "(next != &this->endItem)": 1 - next_end, "(&this->endItem != next)": 1 - next_end,
                                 "prev": has_prev, "next": 1,
                                 "(next == &this->endItem)" % (): next_end, "(&this->endItem == next)": next_end,
                                 "key": key, "prev->key": pk, "%s->key" % P: ck, "next->key": nk,
